@@ -425,10 +425,10 @@ class CreateConfig(Job):
         S = Struct()
         S.lat = [V.float(f"lat{i}", lo=-80, hi=80) for i in range(self.nlat)]
         S.lon = [V.float(f"lon{j}", lo=-170, hi=170) for j in range(self.nlon)]
-        for a, b in zip(S.lat, S.lat[1:]):
-            V.assume(a.v < b.v)
-        for a, b in zip(S.lon, S.lon[1:]):
-            V.assume(a.v < b.v)
+        # coordinate axes in any order (north-to-south latitude axes are common), without repeated values
+        for axis in (S.lat, S.lon):
+            for a, b in itertools.combinations(axis, 2):
+                V.assume(mk_not(mk_eq(a.v, b.v)))
         S.v = [[V.float(f"v{i}_{j}", nan=True, lo=-64, hi=64) for j in range(self.nlon)] for i in range(self.nlat)]
         S.deep = [[V.float(f"w{i}_{j}", nan=True, lo=-64, hi=64) for j in range(self.nlon)] for i in range(self.nlat)] if self.three_d else None
         S.box = [V.float("xmin", lo=-180, hi=180), V.float("ymin", lo=-90, hi=90), V.float("xmax", lo=-180, hi=180), V.float("ymax", lo=-90, hi=90)]
@@ -592,7 +592,7 @@ OUTSIDE = ["create_config: climatologies that vary in time (the property speaks 
            "division by a statistic that is exactly 0 (ZeroDivisionError)"]
 ASSUMPTIONS = ["python's float() acceptance is tabulated per token length on class representatives with the real float() at run time",
                "statistics are finite reals in [-64,64]; replay compares in binary64 with relative tolerance 1e-9",
-               "create_config: strictly increasing lat/lon coordinates, xmin<=xmax, ymin<=ymax, at least one cell with data inside the box, "
+               "create_config: distinct lat/lon coordinate values in any order, xmin<=xmax, ymin<=ymax, at least one cell with data inside the box, "
                "land cells (NaN) constant through time, stub contracts for xarray.load_dataset / DataArray orthogonal indexing / "
                "scipy.interpolate.CubicSpline(bc_type='periodic') as documented in symex/symxr.py and symex/symscipy.py"]
 
